@@ -93,3 +93,41 @@ Definition count_ty_ok (t : sty) : bool := match t with UChar | Int | UInt => tr
 Definition index_ty_ok (t : sty) : bool := match t with Int | UInt => true | _ => false end.
 (* the triangles a face with corner list l contributes: a triangle itself, a quad its fan (0,1,2),(0,2,3) *)
 Definition fan_tris (l : list Z) : list Z := fan l 0%Z.
+
+(* one face of the face element: one word list per list property (count type, item type) *)
+Definition enc_face_bin (e : endian) (rs : list (sty * sty)) (f : list (list N)) : list N :=
+  flat_map (fun '((ct, lt), ws) => enc_list_bin e ct lt ws) (combine rs f).
+Definition enc_face_ascii (rs : list (sty * sty)) (f : list (list N)) : list tok :=
+  flat_map (fun '((_, lt), ws) => enc_list_ascii lt ws) (combine rs f).
+(* a list the reader can take: supported count type, the count fits it, every item fits the item type *)
+Definition list_ok (r : sty * sty) (ws : list N) : Prop :=
+  count_ty_ok (fst r) = true /\ word_fits (fst r) (N.of_nat (List.length ws)) /\
+  N.of_nat (List.length ws) < 2 ^ 31 /\ Forall (word_fits (snd r)) ws.
+(* a face whose index list (property number ip) names three or four vertices *)
+Definition face_ok (rs : list (sty * sty)) (ip : nat) (f : list (list N)) : Prop :=
+  Forall2 list_ok rs f /\ (List.length (nth ip f []) = 3%nat \/ List.length (nth ip f []) = 4%nat).
+(* the state change one list property causes in readBinaryFaceElement (with the list already decoded) *)
+Definition face_step (k ip : nat) (tp : option nat) (lt : sty) (ws : list N) (st : fstate) : fstate :=
+  let v := Z.of_nat (List.length ws) in
+  let st1 :=
+    if Nat.eqb k ip then
+      let st' := {| fs_ibuf := fs_ibuf st; fs_tbuf := fs_tbuf st; fs_points := v |} in
+      if (4 <? v)%Z then st'
+      else match lt with
+           | UInt | Int => {| fs_ibuf := overwrite (map signed32 ws) (fs_ibuf st); fs_tbuf := fs_tbuf st; fs_points := v |}
+           | _ => st'
+           end
+    else st in
+  if nat_eqb_opt tp k then
+    if (8 <? v)%Z then st1
+    else match lt with
+         | Float => {| fs_ibuf := fs_ibuf st1; fs_tbuf := overwrite (map cvF ws) (fs_tbuf st1); fs_points := fs_points st1 |}
+         | Double => {| fs_ibuf := fs_ibuf st1; fs_tbuf := overwrite ws (fs_tbuf st1); fs_points := fs_points st1 |}
+         | _ => st1
+         end
+  else st1.
+Fixpoint face_fold (rs : list (sty * sty)) (f : list (list N)) (k ip : nat) (tp : option nat) (st : fstate) : fstate :=
+  match rs, f with
+  | (_, lt) :: rs', ws :: f' => face_fold rs' f' (S k) ip tp (face_step k ip tp lt ws st)
+  | _, _ => st
+  end.
